@@ -122,6 +122,8 @@ def compare_closures(ref, obs_build, obs_deps):
             if got is None:
                 continue
             got_ids = {fullname_to_id.get(g) for g in got}
+            if obs_deps.get(what + '_ids') is not None:
+                got_ids = set(obs_deps[what + '_ids'].get(n, []))
             if got_ids != exp_ids:
                 names = sorted(m for m in ref.tasks if snap[m]['id'] in exp_ids)
                 out.append({'prop': 'C08', 'tag': 'closures', 'facts': {},
